@@ -8,7 +8,8 @@
 (*   field elems   exactly fb = RLC_FP_BYTES big-endian bytes, value < p;  *)
 (*                 text form through the integer one                       *)
 (*   extensions    concatenation of the coefficients                       *)
-(*   curve points  0 (1 byte) = infinity | 2+s x (fb+1) | 4 x y (2fb+1)     *)
+(*   curve points  0 (1 byte) = infinity | 2+s x (fb+1) | 4 x y (2fb+1),    *)
+(*                 over F_p and over F_p^2 (G2 of pairing-friendly curves) *)
 (* Enc.. is total on valid values, Dec.. returns Ok(v) or Bad.  Values are  *)
 (* the abstract ones of lib/BigInt, lib/Field, lib/Curve.  MCCodec checks  *)
 (* the definitions (round trips, canonicity, Dec accepts exactly the image *)
@@ -182,6 +183,122 @@ DecPoint(s, c, fb, sg) ==
     ELSE Bad
 (* the format (pack flag) a non-infinity encoding was written in *)
 PackOf(s) == s[1] \in {2, 3}
+
+(* ------------------------------------------------- points over F_p^2 (G2) *)
+(* F_p^2 = F_p[i]/(i^2 = q): elements <<a0, a1>>; curve c = [p, q, a, b] with  *)
+(* a, b in F_p^2; points [inf, x, y] with x, y in F_p^2.  Wire format:        *)
+(* 0 | 2+s x0 x1 | 4 x0 x1 y0 y1, s = the IETF sign of y: sign_Fp(y0) if       *)
+(* y1 = 0, else sign_Fp(y1), sign_Fp(v) = 1 iff v > (p-1)/2.                   *)
+F2Zero == <<<<>>, <<>>>>
+F2Add(a, b, c) == <<FAdd(a[1], b[1], c.p), FAdd(a[2], b[2], c.p)>>
+F2Neg(a, c)    == <<FNeg(a[1], c.p), FNeg(a[2], c.p)>>
+F2Mul(a, b, c) == <<FAdd(FMul(a[1], b[1], c.p), FMul(c.q, FMul(a[2], b[2], c.p), c.p), c.p),
+                    FAdd(FMul(a[1], b[2], c.p), FMul(a[2], b[1], c.p), c.p)>>
+F2Sqr(a, c)    == F2Mul(a, a, c)
+F2Norm(a, c)   == FSub(FSqr(a[1], c.p), FMul(c.q, FSqr(a[2], c.p), c.p), c.p)
+F2Inv(a, c)    == LET n == FInv(F2Norm(a, c), c.p) IN
+                  <<FMul(a[1], n, c.p), FMul(FNeg(a[2], c.p), n, c.p)>>
+(* a is a square in F_p^2 iff its norm is a square in F_p *)
+F2IsSquare(a, c) == a = F2Zero \/ FLegendre(F2Norm(a, c), c.p) = 1
+In2(a, p) == InField(a[1], p) /\ InField(a[2], p)
+Rhs2(x, c) == F2Add(F2Add(F2Mul(F2Sqr(x, c), x, c), F2Mul(c.a, x, c), c), c.b, c)
+OnCurve2(P, c) == P.inf \/ (In2(P.x, c.p) /\ In2(P.y, c.p) /\ F2Sqr(P.y, c) = Rhs2(P.x, c))
+SignFp(v, p) == IF BLt(BShr(p, 1), v) THEN 1 ELSE 0
+(* sk = "ietf" is the specification; "y1only" only keys a known finding *)
+Sign2(y, p, sk) == IF sk = "y1only" \/ y[2] # <<>> THEN SignFp(y[2], p) ELSE SignFp(y[1], p)
+EncSize2(P, pack, fb) == IF P.inf THEN 1 ELSE IF pack THEN 2 * fb + 1 ELSE 4 * fb + 1
+EncPoint2(P, pack, c, fb, sk) ==
+    IF P.inf THEN <<0>>
+    ELSE IF pack THEN <<2 + Sign2(P.y, c.p, sk)>> \o FpxEncBin(P.x, fb)
+    ELSE <<4>> \o FpxEncBin(P.x, fb) \o FpxEncBin(P.y, fb)
+(* F_p^2 elements: a0 a1 (2 fb bytes); a UNITARY element (norm a0^2 - q a1^2 = 1, *)
+(* e.g. a pairing value for embedding degree 2) may be packed into a0 followed   *)
+(* by ONE byte 0/1 = the sign bit (parity) of a1, fb + 1 bytes.  fc = [p, q].    *)
+(* (The two lengths coincide for fb = 1: the format needs fb > 1.)               *)
+F2One == <<<<1>>, <<>>>>
+F2Unitary(a, fc) == F2Norm(a, fc) = <<1>>
+Fp2EncSize(a, pack, fc, fb) == IF pack /\ F2Unitary(a, fc) THEN fb + 1 ELSE 2 * fb
+Fp2Enc(a, pack, fc, fb, sg) ==
+    IF pack /\ F2Unitary(a, fc) THEN BToBE(a[1], fb) \o <<SignBit(a[2], fc.p, sg)>>
+    ELSE FpxEncBin(a, fb)
+(* a1^2 = (a0^2 - 1) / q *)
+Fp2PackedRhs(a0, fc) == FMul(FSub(FSqr(a0, fc.p), <<1>>, fc.p), FInv(fc.q, fc.p), fc.p)
+Fp2Dec(s, fc, fb, sg) ==
+    IF Len(s) = 2 * fb THEN FpxDecBin(s, fc.p, fb, 2)
+    ELSE IF Len(s) = fb + 1 THEN
+        LET a0 == BFromBE(SubSeq(s, 1, fb)) IN
+        IF ~BLt(a0, fc.p) \/ s[fb + 1] \notin {0, 1} THEN Bad
+        ELSE LET w == Fp2PackedRhs(a0, fc) IN
+             IF ~FIsSquare(w, fc.p) THEN Bad
+             ELSE LET r  == FSqrt(w, fc.p)
+                      a1 == IF SignBit(r, fc.p, sg) = s[fb + 1] THEN r ELSE FNeg(r, fc.p)
+                  IN  IF SignBit(a1, fc.p, sg) = s[fb + 1] THEN Ok(<<a0, a1>>) ELSE Bad
+    ELSE Bad
+
+(* which strings denote a point: "inf", "cmp", "unc", or "bad" (must be refused) *)
+Dec2Class(s, c, fb) ==
+    IF Len(s) = 1 THEN (IF s[1] = 0 THEN "inf" ELSE "bad")
+    ELSE IF Len(s) = 2 * fb + 1 THEN
+        LET x == FpxDecBin(SubSeq(s, 2, 2 * fb + 1), c.p, fb, 2) IN
+        IF s[1] \notin {2, 3} \/ ~x.ok THEN "bad"
+        ELSE LET w == Rhs2(x.v, c) IN
+             IF F2IsSquare(w, c) /\ ~(w = F2Zero /\ s[1] = 3) THEN "cmp" ELSE "bad"
+    ELSE IF Len(s) = 4 * fb + 1 THEN
+        LET x == FpxDecBin(SubSeq(s, 2, 2 * fb + 1), c.p, fb, 2)
+            y == FpxDecBin(SubSeq(s, 2 * fb + 2, 4 * fb + 1), c.p, fb, 2)
+        IN  IF s[1] = 4 /\ x.ok /\ y.ok /\ OnCurve2([inf |-> FALSE, x |-> x.v, y |-> y.v], c) THEN "unc" ELSE "bad"
+    ELSE "bad"
+(* Q is THE point the string s (of class cl # "bad") denotes.  The compressed *)
+(* form is characterised, not computed: abscissa, curve equation and sign    *)
+(* determine the ordinate uniquely (MCCodec2 checks this).                   *)
+IsDecPoint2(s, cl, Q, c, fb) ==
+    IF cl = "inf" THEN Q.inf
+    ELSE /\ ~Q.inf /\ OnCurve2(Q, c)
+         /\ Q.x = FpxDecBin(SubSeq(s, 2, 2 * fb + 1), c.p, fb, 2).v
+         /\ IF cl = "unc" THEN Q.y = FpxDecBin(SubSeq(s, 2 * fb + 2, 4 * fb + 1), c.p, fb, 2).v
+            ELSE Sign2(Q.y, c.p, "ietf") = s[1] - 2
+
+(* --------------------------------------------------- twisted Edwards points *)
+(* a x^2 + y^2 = 1 + d x^2 y^2 over F_p, ec = [p, a, d]; points [inf, x, y]   *)
+(* with inf = the neutral element (0, 1).  Wire format: 0 (1 byte) = neutral |*)
+(* 2+s y (fb+1), s = sign bit (parity) of x | 4 y x (2fb+1).                  *)
+EdNeutral == [inf |-> TRUE, x |-> <<>>, y |-> <<1>>]
+EdPt(x, y) == IF x = <<>> /\ y = <<1>> THEN EdNeutral ELSE [inf |-> FALSE, x |-> x, y |-> y]
+EdOnCurve(P, ec) ==
+    /\ InField(P.x, ec.p) /\ InField(P.y, ec.p)
+    /\ LET x2 == FSqr(P.x, ec.p)
+           y2 == FSqr(P.y, ec.p)
+       IN  FAdd(FMul(ec.a, x2, ec.p), y2, ec.p) = FAdd(<<1>>, FMul(ec.d, FMul(x2, y2, ec.p), ec.p), ec.p)
+EdEncSize(P, pack, fb) == IF P.inf THEN 1 ELSE IF pack THEN fb + 1 ELSE 2 * fb + 1
+EdEnc(P, pack, ec, fb, sg) ==
+    IF P.inf THEN <<0>>
+    ELSE IF pack THEN <<2 + SignBit(P.x, ec.p, sg)>> \o BToBE(P.y, fb)
+    ELSE <<4>> \o BToBE(P.y, fb) \o BToBE(P.x, fb)
+(* x^2 = (y^2 - 1) / (d y^2 - a) *)
+EdDecompress(y, bit, ec, sg) ==
+    LET den == FSub(FMul(ec.d, FSqr(y, ec.p), ec.p), ec.a, ec.p) IN
+    IF den = <<>> THEN Bad
+    ELSE LET u == FMul(FSub(FSqr(y, ec.p), <<1>>, ec.p), FInv(den, ec.p), ec.p) IN
+         IF ~FIsSquare(u, ec.p) THEN Bad
+         ELSE LET r == FSqrt(u, ec.p)
+                  x == IF SignBit(r, ec.p, sg) = bit THEN r ELSE FNeg(r, ec.p)
+              IN  IF SignBit(x, ec.p, sg) = bit THEN Ok(EdPt(x, y)) ELSE Bad
+(* the neutral element has ONE encoding (0): its long forms are not canonical *)
+EdDec(s, ec, fb, sg) ==
+    IF Len(s) = 1 THEN (IF s[1] = 0 THEN Ok(EdNeutral) ELSE Bad)
+    ELSE IF Len(s) = fb + 1 THEN
+        IF s[1] \notin {2, 3} THEN Bad
+        ELSE LET y == BFromBE(SubSeq(s, 2, fb + 1)) IN
+             IF ~BLt(y, ec.p) THEN Bad
+             ELSE LET d == EdDecompress(y, s[1] - 2, ec, sg) IN
+                  IF d.ok /\ ~d.v.inf THEN d ELSE Bad
+    ELSE IF Len(s) = 2 * fb + 1 THEN
+        IF s[1] # 4 THEN Bad
+        ELSE LET y == BFromBE(SubSeq(s, 2, fb + 1))
+                 x == BFromBE(SubSeq(s, fb + 2, 2 * fb + 1))
+             IN  IF BLt(x, ec.p) /\ BLt(y, ec.p) /\ EdOnCurve(EdPt(x, y), ec) /\ ~EdPt(x, y).inf
+                 THEN Ok(EdPt(x, y)) ELSE Bad
+    ELSE Bad
 
 (* ep_pck / ep_upk on abstract values: <<x, bit>> *)
 Pck(P, c, sg) == <<P.x, SignBit(P.y, c.p, sg)>>
